@@ -57,7 +57,7 @@ def _crash(v, props):
     if not quick:
         args += ["--dense"]
     s = lib.svh(binary, args, timeout=14000)
-    msgs, dt, _ = lib.tlc_trace("Trace_Crash.tla", trace, timeout=6000, xmx="8g")
+    msgs, dt, _ = lib.tlc_trace("Trace_Crash.tla", trace, timeout=14000, xmx="8g")
     tool = [m for m in msgs if m.get("kind") == "TOOL"]
     if tool:
         raise lib.ToolError("harness crash-image enumeration disagrees with Storage.tla: " + json.dumps(tool[:3]))
